@@ -35,6 +35,8 @@ def obligations(tier):
            bounds="s: every str with len <= 40 (symbolic)"),
         CH("label_roundtrip_table", M, "label_roundtrip", t, functions=F, stubs=[FMT], mode="E1s",
            bounds="every (scale, label) row of the frozen table (selector-enumerated)"),
+        CH("value_answers_do_not_depend_on_history", M, "value_after_history", t, functions=F[0::2], stubs=[FMT], mode="E1s",
+           bounds="two conversions in a row on the same scale: every ordered pair of ints in -2..102, 5 scales (first value selector-enumerated, second looped)"),
         CH("non_label_objects_refused", M, "non_label_objects", t, functions=F[1::2], stubs=[FMT], mode="E1s",
            bounds="5 scales x 12 objects that are not strings (None, bools, numbers, bytes, containers holding a label, NaN)"),
         CH("answers_do_not_depend_on_history", M, "label_after_history", t, functions=F, stubs=[FMT], mode="E1s",
